@@ -160,9 +160,11 @@ def small_configs(rng, tier):
     """(M, L, I, J, spacing, offset, radius): resolving and deliberately non-resolving grids."""
     out = []
     Ms = [1, 2, 3, 5] if tier == 'quick' else [1, 2, 3, 4, 5, 6, 8]
+    n = 0
     for M in Ms:
         for L in (M, M + 1):
-            for sp in SPACINGS:
+            n += 1
+            for sp in (SPACINGS if tier != 'quick' else [SPACINGS[n % 3], SPACINGS[(n + 1) % 3]]):
                 # a resolving choice of (I, J) for this spacing, odd and even variants by rng
                 I = 2 * M - 1 + int(rng.integers(0, 3)) if M > 1 else int(rng.integers(1, 4))
                 need = 2 * (L - 1)
@@ -360,7 +362,9 @@ def onehots(shape, positions):
 
 
 def r_transforms(ctx, a):
-    """Model vs implementation on one-hot and dense spectra; the property's clauses on the implementation."""
+    """Model vs implementation on one-hot and dense spectra; the property's clauses on the implementation.
+    All spectra of one configuration go through ONE batched to_nodal / to_modal / integrate call (few XLA
+    compilations); the leading-axes layout is exercised by a second call on the dense part."""
     jax, jnp, sh, fourier, al = J_()
     c = a['cfg']; g = make_grid(c)
     rng = np.random.Generator(np.random.PCG64(a['seed']))
@@ -373,107 +377,106 @@ def r_transforms(ctx, a):
     tag = c.get('impl', 'real')
     r2 = float(g.radius) ** 2
     f, p, w = tables(g)
+    tol = 2.0 ** -36
 
-    # ---- all one-hot spectra (every (row, l), including masked-out, extra-row and padded positions)
+    # ---- the spectra: every one-hot (all (row, l) incl. masked-out, extra-row, padded positions),
+    #      dense small-integer spectra (lead-shaped), their masked and band-limited versions
     allpos = [(a_, l_) for a_ in range(rows) for l_ in range(cols)]
-    X = onehots((rows, cols), allpos)
-    if meshed:
-        Z = np.stack([to_nodal(g, X[n]) for n in range(len(allpos))])
-    else:
-        Z = to_nodal(g, X)
-    ctx.exact('to_nodal output shape', list(Z.shape), [len(allpos), In, Jn])
-    nmodel = len(allpos) if not a.get('max_onehot') else min(len(allpos), a['max_onehot'])
-    if nmodel < len(allpos):
-        pick = sorted(rng.choice(len(allpos), size=nmodel, replace=False).tolist())
-    else:
-        pick = list(range(len(allpos)))
-    scale = synth_scale(c, g, X[pick])
-    ctx.corr(f'to_nodal on one-hot spectra [{tag}]', Z[pick], model_synth(ctx, c, g, X[pick]), scale=scale)
-    ctx.count('onehot_spectra', len(allpos)); ctx.count('onehot_spectra_in_model', len(pick))
-    # masked / extra-row / padded coefficients never influence the result: exact zeros
-    outside = [n for n, (a_, l_) in enumerate(allpos) if not mask[a_, l_]]
-    ctx.oracle('coefficients outside the triangular truncation never influence the synthesis (exact zero field)',
-               bool(all((Z[n] == 0).all() for n in outside)),
-               None if all((Z[n] == 0).all() for n in outside) else
-               {'position': allpos[[n for n in outside if not (Z[n] == 0).all()][0]]})
-    if fast:
-        padz = np.zeros(Z.shape[1:], bool); padz[c['I']:, :] = True; padz[:, c['J']:] = True
-        ctx.oracle('padded nodal entries of a synthesis are exactly zero', bool((Z[:, padz] == 0).all()), None)
-    # back transform of every one-hot field
-    if meshed:
-        Y = np.stack([to_modal(g, Z[n]) for n in range(len(allpos))])
-    else:
-        Y = to_modal(g, Z)
+    n1 = len(allpos)
+    lead = tuple(a.get('lead', []))
+    if meshed and len(lead) > 1: lead = lead[:1]
+    B = int(np.prod(lead)) if lead else 1
+    xd = rng.integers(-8, 9, size=(B, rows, cols)).astype(np.float64)
+    xi = xd.copy(); xi[:, :, min(c['L'], D + 1):] = 0          # band-limited to what the rule integrates exactly
+    X = np.concatenate([onehots((rows, cols), allpos), xd, xd * mask, xi])
+    sl_d = slice(n1, n1 + B); sl_m = slice(n1 + B, n1 + 2 * B); sl_i = slice(n1 + 2 * B, n1 + 3 * B)
+
+    def batched(fn, arr):
+        if meshed and arr.ndim > 3:
+            raise ValueError('mesh: one leading axis only')
+        return fn(g, arr)
+    Z = batched(to_nodal, X)
+    ctx.exact('to_nodal output shape', list(Z.shape), [len(X), In, Jn])
+    Y = batched(to_modal, Z)
+    ctx.exact('to_modal output shape', list(Y.shape), [len(X), rows, cols])
+    INT = np.asarray(g.integrate(jnp.asarray(Z))).reshape((-1,))
+
+    # ---- model vs implementation
+    nmodel = n1 if not a.get('max_onehot') else min(n1, a['max_onehot'])
+    pick = sorted(rng.choice(n1, size=nmodel, replace=False).tolist()) if nmodel < n1 else list(range(n1))
+    ctx.corr(f'to_nodal on one-hot spectra [{tag}]', Z[pick], model_synth(ctx, c, g, X[pick]), scale=synth_scale(c, g, X[pick]))
+    ctx.count('onehot_spectra', n1); ctx.count('onehot_spectra_in_model', len(pick))
     na = min(len(pick), a.get('max_model_analysis', 8))
     apick = [pick[i] for i in sorted(rng.choice(len(pick), size=na, replace=False).tolist())] if na else []
     if apick:
         ctx.corr(f'to_modal on synthesised one-hot fields [{tag}]', Y[apick], model_analysis(ctx, c, g, Z[apick]),
                  scale=analysis_scale(c, g, Z[apick]))
-    # the round trip clause: exact up to the wavenumber the quadrature resolves
+    ctx.corr(f'to_nodal dense [{tag}]', Z[sl_d], model_synth(ctx, c, g, X[sl_d]), scale=synth_scale(c, g, X[sl_d]))
+    ctx.corr(f'to_modal dense [{tag}]', Y[sl_d], model_analysis(ctx, c, g, Z[sl_d]), scale=analysis_scale(c, g, Z[sl_d]))
+    iscale = float(np.einsum('j,bij->b', np.abs(w), np.abs(Z[sl_d])).max() * r2) + 1e-300
+    ctx.corr(f'integrate [{tag}]', INT[sl_d], ctx.model.call(3, [B, In, Jn], [w.ravel(), [float(g.radius)], Z[sl_d].ravel()]), scale=iscale)
+    if not fast:
+        mm = ctx.model.call(6, [rows, cols], [xd[0].ravel()])
+    else:
+        mm = ctx.model.call(19, [c['M'], c['L'], rows, cols], [xd[0].ravel()])
+    ctx.exact('mask (.) x', (xd[0] * mask).ravel().tolist(), [float(v) for v in mm])
+
+    # ---- leading axes: the same dense spectra in their lead-shaped layout
+    if lead:
+        zl = to_nodal(g, xd.reshape(lead + (rows, cols)))
+        ctx.exact('to_nodal output shape (leading axes)', list(zl.shape), list(lead) + [In, Jn])
+        yl = to_modal(g, zl)
+        ctx.exact('to_modal output shape (leading axes)', list(yl.shape), list(lead) + [rows, cols])
+        ctx.oracle_close('leading axes act independently (synthesis: lead-shaped = batched)', zl.reshape((B, In, Jn)), Z[sl_d],
+                         scale=synth_scale(c, g, xd))
+        ctx.oracle_close('leading axes act independently (analysis: lead-shaped = batched)', yl.reshape((B, rows, cols)), Y[sl_d],
+                         scale=analysis_scale(c, g, Z[sl_d]))
+    ctx.count(f'lead_axes={len(lead)}')
+
+    # ---- the property's clauses on the implementation
+    outside = [n for n, (a_, l_) in enumerate(allpos) if not mask[a_, l_]]
+    badz = [n for n in outside if not (Z[n] == 0).all()]
+    ctx.oracle('coefficients outside the triangular truncation never influence the synthesis (exact zero field)',
+               not badz, None if not badz else {'position': list(allpos[badz[0]])})
+    ctx.oracle('synth(x) == synth(mask*x) (masked coefficients are inert)',
+               bool(np.abs(Z[sl_d] - Z[sl_m]).max() <= 2.0 ** -44 * synth_scale(c, g, xd)), float(np.abs(Z[sl_d] - Z[sl_m]).max()))
+    if fast:
+        padz = np.zeros(Z.shape[1:], bool); padz[c['I']:, :] = True; padz[:, c['J']:] = True
+        ctx.oracle('padded nodal entries of a synthesis are exactly zero', bool((Z[:, padz] == 0).all()), None)
+        ex = np.zeros((rows, cols), bool); ex[1, :] = True; ex[2 * c['M']:, :] = True; ex[:, c['L']:] = True
+        ctx.oracle('extra row / padded modal entries of an analysis are exactly zero', bool((Y[:, ex] == 0).all()), None)
+    # round trip: exact up to the wavenumber the quadrature resolves
     fourier_ok = c['I'] >= 2 * c['M'] - 1
     lmax_out = min(c['L'] - 1, D - (Lb - 1)) if Lb > 0 else -1
     if fourier_ok and Lb > 0:
-        l_ax = np.arange(cols)
-        chk = (l_ax <= lmax_out) & (l_ax < c['L'])
+        chk = np.arange(cols) <= lmax_out
         worst = 0.0; where = None
         for n, (a_, l_) in enumerate(allpos):
             if l_ >= Lb and mask[a_, l_]:
                 continue               # input not band-limited to what the rule resolves: no claim (sht_gram applies)
-            want = X[n] * mask
-            e = np.abs(Y[n] - want)[:, chk]
-            if e.size and e.max() > worst: worst = float(e.max()); where = allpos[n]
+            e = np.abs(Y[n] - X[n] * mask)[:, chk]
+            if e.size and e.max() > worst: worst = float(e.max()); where = list(allpos[n])
         ctx.oracle('round trip returns mask*x on band-limited spectra (grids/degrees the quadrature resolves)',
-                   worst <= 2.0 ** -36 * 8, {'max_err': worst, 'one_hot': where, 'D': D, 'Lb': Lb, 'resolves': res})
+                   worst <= tol * 8, {'max_err': worst, 'one_hot': where, 'D': D, 'Lb': Lb, 'resolves': res})
+        if res:
+            ctx.oracle_close('round trip on dense spectra (resolving grid)', Y[sl_d], xd * mask, scale=analysis_scale(c, g, Z[sl_d]))
         ctx.count('roundtrip_oracle:full' if res else 'roundtrip_oracle:bandlimited')
     else:
         ctx.count('roundtrip_oracle:skipped(aliasing grid)')
     # sht_gram on the implementation: round trip = Gram operator of the dumped tables, on every grid (aliasing included)
     if not fast:
         Gr = np.einsum('j,ia,ajl,ib,bjk->albk', w, f, p, f, p)
-        pred = np.einsum('albk,nbk->nal', Gr, X)
+        pred = np.einsum('albk,nbk->nal', Gr, X[:n1 + B])
         gs = float(np.einsum('j,ia,ajl,ib,bjk->albk', np.abs(w), np.abs(f), np.abs(p), np.abs(f), np.abs(p)).max()) + 1e-300
-        ctx.oracle_close('analysis(synth x) = Gram operator of the tables applied to x (all one-hot x, any grid)', Y, pred, scale=gs * 4)
-
-    # ---- dense small-integer spectra with leading axes
-    lead = tuple(a.get('lead', []))
-    if meshed and len(lead) > 1: lead = lead[:1]
-    x = rng.integers(-8, 9, size=lead + (rows, cols)).astype(np.float64)
-    z = to_nodal(g, x)
-    B = int(np.prod(lead)) if lead else 1
-    xb = x.reshape((B, rows, cols)); zb = z.reshape((B, In, Jn))
-    ctx.exact('to_nodal output shape (leading axes)', list(z.shape), list(lead) + [In, Jn])
-    ctx.corr(f'to_nodal dense, lead={list(lead)} [{tag}]', zb, model_synth(ctx, c, g, xb), scale=synth_scale(c, g, xb))
-    y = to_modal(g, z)
-    yb = y.reshape((B, rows, cols))
-    ctx.corr(f'to_modal dense, lead={list(lead)} [{tag}]', yb, model_analysis(ctx, c, g, zb), scale=analysis_scale(c, g, zb))
-    ctx.count(f'lead_axes={len(lead)}')
-    # masked entries inert on dense input (exact)
-    zm = to_nodal(g, x * mask)
-    ctx.oracle('synth(x) == synth(mask*x) (masked coefficients are inert)', bool(np.array_equal(z, zm)) or
-               bool(np.abs(z - zm).max() <= 2.0 ** -40 * synth_scale(c, g, xb)), None)
-    # leading axes independent
-    if lead:
-        z0 = to_nodal(g, xb[0]); y0 = to_modal(g, zb[0])
-        ctx.oracle_close('leading axes act independently (synthesis)', zb[0], z0, scale=synth_scale(c, g, xb))
-        ctx.oracle_close('leading axes act independently (analysis)', yb[0], y0, scale=analysis_scale(c, g, zb))
-    # mask (.) x
-    if not fast:
-        ctx.exact('mask (.) x', (xb[0] * mask).ravel().tolist(), [float(v) for v in ctx.model.call(6, [rows, cols], [xb[0].ravel()])])
-    else:
-        ctx.exact('mask (.) x', (xb[0] * mask).ravel().tolist(),
-                  [float(v) for v in ctx.model.call(19, [c['M'], c['L'], rows, cols], [xb[0].ravel()])])
-    # integrate: model vs implementation, and the integral identity
-    integ = np.asarray(g.integrate(jnp.asarray(z))).reshape((B,))
-    iscale = float(np.einsum('j,bij->b', np.abs(w), np.abs(zb)).max() * r2) + 1e-300
-    ctx.corr(f'integrate [{tag}]', integ, ctx.model.call(3, [B, In, Jn], [w.ravel(), [float(g.radius)], zb.ravel()]), scale=iscale)
-    # identity needs the rule exact for degree l (products with the constant): band-limit x to l <= D
-    xi = xb.copy(); xi[:, :, min(c['L'], D + 1):] = 0
-    zi = to_nodal(g, xi if not meshed else xi[0])
-    zi = zi.reshape((-1, In, Jn))
-    ii = np.asarray(g.integrate(jnp.asarray(zi))).reshape((-1,))
-    want = r2 * math.sqrt(4 * math.pi) * xi[:len(ii), 0, 0]
-    ctx.oracle_close('integrate(synth x) = radius^2 * sqrt(4 pi) * x[0,0]', ii, want,
-                     scale=float(np.einsum('j,bij->b', np.abs(w), np.abs(zi)).max() * r2) + 1e-300)
+        ctx.oracle_close('analysis(synth x) = Gram operator of the tables applied to x (one-hot and dense x, any grid)',
+                         Y[:n1 + B], pred, scale=gs * 8 * max(1.0, float(np.abs(xd).sum(axis=(1, 2)).max())))
+    # integral identity (needs the rule exact for degree l only: x band-limited to l <= D)
+    want = r2 * math.sqrt(4 * math.pi) * xi[:, 0, 0]
+    ctx.oracle_close('integrate(synth x) = radius^2 * sqrt(4 pi) * x[0,0]', INT[sl_i], want,
+                     scale=float(np.einsum('j,bij->b', np.abs(w), np.abs(Z[sl_i])).max() * r2) + 1e-300)
+    ctx.oracle_close('integrate of one-hot fields = radius^2 sqrt(4 pi) delta', INT[:n1][[n for n, (a_, l_) in enumerate(allpos) if l_ <= D]],
+                     np.array([r2 * math.sqrt(4 * math.pi) * (1.0 if (a_, l_) == (0, 0) else 0.0) for (a_, l_) in allpos if l_ <= D]),
+                     scale=float(np.einsum('j,bij->b', np.abs(w), np.abs(Z[:n1])).max() * r2) + 1e-300)
     ctx.count('transforms:' + tag)
 
 
